@@ -6,6 +6,14 @@ HERE = os.path.dirname(os.path.abspath(__file__))
 TECH = "deterministic simulation with fault injection: seeded runs of the real library on a simulated block device (SimDisk); "
 
 CHECKS = {
+ "C11": dict(level="exploration", design="§5 C11",
+   text="Images of every filesystem kind (whole device or inside a GPT/MBR partition) are attached read-only in four ways (backend whose Writable() fails, file.New(readOnly), file.OpenFromPath(readOnly), diskfs.Open(ReadOnly) on a real scratch file) and driven with seeded histories interleaving every public reading call with every public mutating call (Partition, WritePartitionContents, CreateFilesystem, Mkdir, OpenFile with write/create/append/truncate flags, Write, Rename, Remove, SetLabel, Chmod, Chown, Chtimes, Symlink); each mutating call must return an error, the simulated device must see zero WriteAt calls and an unchanged SHA-256; on a read-write attachment the reading calls alone must not write.",
+   note="Seeded sampling. For the two OS-file attachments the operating system enforces read-only and the file hash is compared. In-memory state after a refused call is not judged (the statement is about the image).",
+   technique=TECH+"read-only fault at the backend seam + device write log and image hash as monitors under seeded call histories"),
+ "C12": dict(level="exploration", design="§5 C12",
+   text="Histories of 0..3 Disk.CreateFilesystem calls (with Finalize and one file) of seeded types on the same range - whole disk, GPT partition, MBR partition; 512/2048/4096-byte sectors; sizes around the FAT thresholds - leaving the stale bytes of each predecessor in place, then a fresh diskfs.OpenBackend on the durable bytes: partition table type, GetFilesystem type, label and file contents must be those of the last filesystem created; a blank range must be reported as having none.",
+   note="Seeded sampling over layouts, type sequences and sizes; mostly configuration coverage (stated in DESIGN). Labels are compared for FAT/ext4/ISO (padding trimmed).",
+   technique=TECH+"seeded create-over-stale-bytes histories on the simulated device, fresh open from durable bytes"),
  "C14": dict(level="exploration", design="§5 C14",
    text="The same seeded FAT12/16/32 history (or GPT/MBR table history with GUIDs given) is executed in two separate OS processes under testing/synctest's fake clock: A at fake time T0, B after a seeded clock jump (seconds to 40 years) with further jumps between operations, at another start offset inside a device with other surrounding noise and another entropy seed, with a fixed seeded SOURCE_DATE_EPOCH (incl. 0, pre-1980, odd seconds); the canonical hashes of the volume range must be equal. A third, non-reproducible control execution must differ, which shows the clock fault reaches the code (probe control-differs).",
    note="Seeded sampling. Bytes inside the range before Create are zero in both executions. The fake clock is synctest's; each execution is a child test binary (go test -c) because synctest needs a *testing.T.",
